@@ -737,7 +737,10 @@ impl Writer for UperWriter {
 
     #[inline]
     fn write_null<C: null::Constraint>(&mut self, _value: &Null) -> Result<(), Self::Error> {
-        Ok(())
+        // NULL has no bits, but it is a component like any other: the enclosing SEQUENCE
+        // counts its components to find the position of the extension additions
+        self.write_bit_field_entry(false, true)?;
+        self.with_buffer(|_| Ok(()))
     }
 }
 
@@ -1463,7 +1466,9 @@ impl<B: ScopedBitRead> Reader for UperReader<B> {
 
     #[inline]
     fn read_null<C: null::Constraint>(&mut self) -> Result<Null, Self::Error> {
-        Ok(Null)
+        // see write_null
+        let _ = self.read_bit_field_entry(false)?;
+        self.with_buffer(|_| Ok(Null))
     }
 }
 
